@@ -130,6 +130,26 @@ func (p *Play) BuyIn(phase string, seat int, chips int64, sitOut bool) OpRec {
 	return op
 }
 
+// LazyBuyIn seats a new player who never calls PlayerJoin and waits (the table is kept still by the caller: nobody
+// acts, nobody else is seated) until the engine's own auto-join timer (17 s after the last reservation) has seated
+// him in. Returns the player id and whether the table shows him seated-in within 24 s.
+func (p *Play) LazyBuyIn(phase string, seat int, chips int64) (string, bool) {
+	op := p.BuyIn(phase, seat, chips, true)
+	if op.Err != "" {
+		return "", false
+	}
+	t0 := time.Now()
+	for time.Since(t0) < 24*time.Second {
+		time.Sleep(250 * time.Millisecond)
+		t := p.tableNow()
+		if i := t.FindPlayerIdx(op.ID); i >= 0 && t.State.PlayerStates[i].IsIn {
+			p.record(OpRec{Kind: "auto-joined", ID: op.ID, Phase: phase}, nil)
+			return op.ID, true
+		}
+	}
+	return op.ID, false
+}
+
 func (p *Play) Rebuy(phase, id string, chips int64) OpRec {
 	err := p.SS.S.Reserve(id, -1, chips)
 	if err == nil {
